@@ -450,6 +450,13 @@ class Analysis:
         C["UpstreamFailed"] = query_class("query_upstream_failed")
         C["RunningQ"] = query_class("query_jobs_running")
         C["Aborted"] = C["FailedLike"] - C["Failed"] - C["UpstreamFailed"]
+        # the three observations of 'running' (success accepted, failure accepted, reported by query_jobs_running) agree on a
+        # correct tree (R20.1 / R17.5 check that); where they do not, the other properties use what all three agree on, so that
+        # one broken guard is reported by its own rule instead of as a lost anchor everywhere
+        C["RunningAccepted"] = C["Running"]
+        common = C["Running"] & C["RunningF"] & C["RunningQ"]
+        if common:
+            C["Running"] = common
         self._classes = C
         return C
 
